@@ -145,8 +145,8 @@ def _worker_inner(task):
     # witness replay: the discrete trace of sampled paths must be reproduced by the real code with floats
     validated, mismatches = 0, []
     for s in ex.samples:
-        if s.get("witness") is None:
-            continue
+        if s.get("witness") is None or not s["witness"].get("__dyadic"):
+            continue  # only models on the dyadic grid are exact in floats; others could round a tie apart
         v, events, missing, recs = _run_concrete(task, s["witness"])
         if v is None and events[:len(s["events"])] == s["events"][:len(events)] and len(events) >= min(len(s["events"]), task["K"]) \
                 and records_agree(s.get("records"), recs):
@@ -275,7 +275,7 @@ def finish(prop, tier, seed, rows, results, fatal, vacuity, extra_assumptions, f
         if len(samples) < 3:
             for s in r["samples"][:1]:
                 samples.append(dict(config=cid, decisions=s["decisions"][:200], events=s["events"], ended=s["ended"],
-                                    witness={k: v for k, v in list((s.get("witness") or {}).items())[:12]}))
+                                    witness={k: v for k, v in list((s.get("witness") or {}).items())[:12] if not k.startswith("__")}))
         smt += r["smt_dump"]
 
     # ---- violations: replay on the real code with floats, then known-finding triage -----------------
